@@ -128,6 +128,11 @@ func runTrace(env *core.Env, t Trace, verbose bool) bool {
 			ok = !strings.Contains(string(s.res.Out), a.Text)
 		case "err_contains":
 			ok = strings.Contains(string(s.res.Err), a.Text)
+		case "dep_invariant_broken": // the dependency relation observed after the step breaks an invariant other than acyclicity
+			msg := checkDepInvariants(s.obs)
+			ok = s.obs.Fail == "" && msg != "" && invClass(msg) != "cycle"
+		case "err_empty":
+			ok = len(strings.TrimSpace(string(s.res.Err))) == 0
 		case "obs_contains":
 			ok = strings.Contains(s.obs.Norm(nil), a.Text)
 		case "obs_lacks":
